@@ -16,7 +16,7 @@ CLAIMED = {
          "Real threads run the real Memfs under a controlled scheduler fed by the guard hook (one runnable thread, yield points at call starts and before guard acquisitions): every schedule of every 2-thread x 1-call program over the single-step alphabet and of seeded 2x2/3x1/3x2/2x1 (thorough also 2x2x2, 3x3) programs is enumerated depth-first by re-execution; each execution is checked for linearizability against sequential Memfs itself, append exactly-once with unique tokens, nested guard acquisition, panics / poisoning and tree integrity at quiescence. The same programs and 8-thread mixes also run free on 16 cores with a spinning start line, a global clock and a wait-state monitor (deadlock certificate from guard events); the evidence counts the call pairs that really overlapped. Miri (many seeds) runs a hook-free executor for data races, deadlocks and UB.",
          "Guard-boundary granularity is complete only while all shared state stays behind read_guard/write_guard (cross-checked by Miri); programs above 3x3 are sampled; schedule cap 4000 per program.", "5/C04"),
  "C05": ("reference-function monitor + metamorphic spelling check + syscall-trace checker (strace)",
-         "Oracle 1: Memfs::abs and Stdfs::abs are compared with a string-level reference for every string up to length 6/7 over {/ . ~ $ : a 2-byte}, scheme-prefixed variants and random longer strings, under 4 cwds and 3 HOME values (one per worker process), with well-formedness, idempotence and cross-backend equality. Oracle 2: for a prepared state x every path-taking method x every spelling of the argument, the call and the call with abs(argument) on an identical instance must give equal results and complete states (Memfs: hook snapshot; Stdfs: disk observer). Oracle 3: strace -e trace=%file of a child bracketing 10^4 abs() calls per backend between marker syscalls; only getcwd (Stdfs) may appear.",
+         "Oracle 1: Memfs::abs and Stdfs::abs are compared with a string-level reference for every string up to length 6/7 over {/ . ~ $ : a 2-byte}, scheme-prefixed variants and random longer strings, under 4 cwds and 3 HOME values (one per worker process), with well-formedness, idempotence and cross-backend equality. Oracle 2: for a prepared state x every path-taking method x every spelling of the argument, the call and the call with abs(argument) on an identical instance must give equal results and complete states (Memfs: hook snapshot; Stdfs: disk observer). Oracle 3: strace -e trace=%file of a child bracketing 10^4 abs() calls per backend between marker syscalls; only getcwd (Stdfs) may appear, and not even that in a third section whose inputs do not depend on the cwd; the child then removes its own working directory and must still get the in-memory backend's answers for those inputs.",
          "UTF-8 paths; undelimited variable names not judged; symlink()'s target is documented as link-relative and is not an abs() argument.", "5/C05"),
  "C08": ("reference walker + constrained-sequence checker over random trees x full option cross-product",
          "Seeded random trees (links to files/dirs/ancestors/absent paths, cycles) x ~3000 option records x descriptor caps {0,1,2,50} (hook) and a 60-deep chain: a reference walker computes what the options denote; the produced sequence is checked for termination, multiset equality, filter soundness, parent/contents order, exact sequence equality whenever an order is requested, LinkLooping instead of endless descent and cap independence; the listing helpers for absolute/distinct/sorted/argument-free results agreeing with exists/is_dir/is_file in both directions. Memfs for all, Stdfs on materialised in-domain trees.",
